@@ -107,7 +107,7 @@ package sql
 %token REPLACE
 %token RESTRICT
 %token ROLLBACK
-%token ROWID
+%token<identifier> ROWID
 %token SELECT
 %token SET
 %token TABLE
@@ -170,7 +170,7 @@ columnName:
 		$$ = $1
 	} |
 	ROWID {
-		$$ = "ROWID"
+		$$ = $1
 	}
 
 columnNameList:
